@@ -197,7 +197,7 @@ var cronParsers = []struct {
 	optional int // index into places of the optional field, -1 none
 	descr    bool
 }{
-	{[]int{1, 2, 3, 4, 5}, -1, true},    // 0: cron.ParseStandard
+	{[]int{1, 2, 3, 4, 5}, -1, true},     // 0: cron.ParseStandard
 	{[]int{0, 1, 2, 3, 4, 5}, -1, false}, // 1: Second|Minute|Hour|Dom|Month|Dow
 	{[]int{0, 1, 2, 3, 4, 5}, 0, true},   // 2: SecondOptional|...|Descriptor
 	{[]int{1, 2, 3, 4, 5}, 4, false},     // 3: Minute|Hour|Dom|Month|DowOptional
